@@ -995,4 +995,106 @@ theorem slp_cost_eq_strad (k : Rat) (mask strad : List Bool) (c : List Rat) (sam
   obtain ⟨h1, h2⟩ := selCost_meanSel k mask strad c (totalCosts c samples) hst hc htot hdis z
   rw [h1, h2, selCost_totalCosts strad c samples (by omega) (fun s h => by rw [hs s h, hst])]
 
+/-! ### gluing scenario points into a point of the SLP -/
+
+/-- position → variable: index of the `r`-th selected entry (inverse of `maskRank` on selected positions) -/
+def maskNth : List Bool → Nat → Nat
+  | [], _ => 0
+  | true :: _, 0 => 0
+  | true :: bs, r + 1 => maskNth bs r + 1
+  | false :: bs, r => maskNth bs r + 1
+
+/-- round trip variable → position → variable -/
+theorem maskNth_maskRank (mask : List Bool) (j : Nat) (h : mask.getD j false = true) :
+    maskNth mask (maskRank mask j) = j := by
+  induction mask generalizing j with
+  | nil => simp at h
+  | cons b bs ih =>
+    cases j with
+    | zero =>
+      have hb : b = true := by simpa using h
+      subst hb; simp [maskRank, maskNth]
+    | succ j =>
+      have hj : bs.getD j false = true := by simpa using h
+      cases b with
+      | true =>
+        simp only [maskRank, ↓reduceIte]
+        rw [Nat.add_comm, maskNth, ih j hj]
+      | false =>
+        simp only [maskRank, Bool.false_eq_true, ↓reduceIte, Nat.zero_add]
+        rw [maskNth, ih j hj]
+
+/-- round trip position → variable → position: the `r`-th selected entry is selected, lies in the list, and has
+    rank `r` -/
+theorem maskRank_maskNth (mask : List Bool) (r : Nat) (h : r < maskCount mask) :
+    mask.getD (maskNth mask r) false = true ∧ maskNth mask r < mask.length ∧ maskRank mask (maskNth mask r) = r := by
+  induction mask generalizing r with
+  | nil => simp [maskCount] at h
+  | cons b bs ih =>
+    cases b with
+    | true =>
+      cases r with
+      | zero => simp [maskNth, maskRank]
+      | succ r =>
+        have := ih r (by simp [maskCount] at h; omega)
+        simp only [maskNth, List.getD_cons_succ, List.length_cons, maskRank, ↓reduceIte]
+        exact ⟨this.1, by omega, by omega⟩
+    | false =>
+      have := ih r (by simpa [maskCount] using h)
+      simp only [maskNth, List.getD_cons_succ, List.length_cons, maskRank, Bool.false_eq_true, ↓reduceIte]
+      exact ⟨this.1, by omega, by omega⟩
+
+/-- the point of the SLP glued from one point per scenario: the original variables from scenario 0, the copy block
+    of sample `i` from scenario `i+1` -/
+def slpGlue (mask : List Bool) (n : Nat) (w : Nat → Vec) : Vec := fun k =>
+  if k < n then w 0 k
+  else w ((k - n) / maskCount mask + 1) (maskNth mask ((k - n) % maskCount mask))
+
+/-- if the scenario points agree on the present variables, the glued point recombines to them:
+    `slpGlue ∘ embed s = w s` on `[0, n)` -/
+theorem slpGlue_embed (mask : List Bool) (n : Nat) (w : Nat → Vec) (s j : Nat) (hj : j < n)
+    (hagree : mask.getD j false = false → w s j = w 0 j) :
+    slpGlue mask n w (slpEmbed mask n s j) = w s j := by
+  cases s with
+  | zero => simp [slpGlue, hj]
+  | succ i =>
+    by_cases hm : mask.getD j false = true
+    · have hr := maskRank_lt mask j hm
+      rw [slpEmbed_succ_sel mask n i j hm]
+      unfold slpGlue
+      rw [if_neg (by omega)]
+      have e : n + i * maskCount mask + maskRank mask j - n = maskRank mask j + i * maskCount mask := by omega
+      rw [e, Nat.add_mul_div_right _ _ (by omega), Nat.div_eq_of_lt hr, Nat.zero_add,
+        Nat.add_mul_mod_self_right, Nat.mod_eq_of_lt hr, maskNth_maskRank mask j hm]
+    · have hm' : mask.getD j false = false := by simpa using hm
+      rw [slpEmbed_succ_unsel mask n i j hm', hagree hm']
+      simp [slpGlue, hj]
+
+/-! ### a problem reads a point only below `n` -/
+
+theorem eval_congr (r : Row) (x y : Vec) (h : ∀ p ∈ r.coeffs, x p.1 = y p.1) : r.eval x = r.eval y := by
+  unfold Row.eval
+  congr 1
+  apply List.map_congr_left
+  intro p hp
+  rw [h p hp]
+
+theorem sat_congr (r : Row) (x y : Vec) (h : ∀ p ∈ r.coeffs, x p.1 = y p.1) : r.Sat x ↔ r.Sat y := by
+  unfold Row.Sat
+  rw [eval_congr r x y h]
+
+theorem feasibleRelaxed_congr (P : Problem) (hl : P.l.length = P.n)
+    (hcols : ∀ r ∈ P.rows, ∀ p ∈ r.coeffs, p.1 < P.n) (x y : Vec) (h : ∀ j, j < P.n → x j = y j) :
+    P.FeasibleRelaxed x ↔ P.FeasibleRelaxed y := by
+  unfold Problem.FeasibleRelaxed InBounds
+  constructor
+  · rintro ⟨hb, hr⟩
+    refine ⟨fun j hj => ?_, fun r hrr => ?_⟩
+    · rw [← h j (by omega)]; exact hb j hj
+    · exact (sat_congr r x y (fun p hp => h p.1 (hcols r hrr p hp))).mp (hr r hrr)
+  · rintro ⟨hb, hr⟩
+    refine ⟨fun j hj => ?_, fun r hrr => ?_⟩
+    · rw [h j (by omega)]; exact hb j hj
+    · exact (sat_congr r x y (fun p hp => h p.1 (hcols r hrr p hp))).mpr (hr r hrr)
+
 end EAO.Slp
